@@ -60,8 +60,11 @@ class ExpressionWrapper:
 class FieldContext:
     name: str
     metadata: Mapping
-    packer: Optional[str] = None
-    unpacker: Optional[str] = None
+    # names of the union (un)packer methods built for this field, by the
+    # identity of the union type they were built for (a recursive alias
+    # calls the method of ITS union, with the argument of the call site)
+    union_packers: dict[int, str] = field(default_factory=dict)
+    union_unpackers: dict[int, str] = field(default_factory=dict)
 
     def copy(self, **changes: Any) -> "FieldContext":
         return replace(self, **changes)
